@@ -8,6 +8,8 @@
 //
 //   - every exported top-level pkg/api function whose name ends in "File",
 //   - api.writeCutOutputWith,
+//   - the form multi-fill transaction (multifill.go): api.multiFillFormJSONWith / multiFillFormCSVWith
+//     and their record writer api.writeMultiFillOutputWith,
 //   - pdfcpu.WriteContext, pdfcpu.WriteReader, pdfcpu.CopyFile, pdfcpu.Write
 //
 // into a row `FRow pkg name helper key via`. It understands exactly the shapes described
@@ -1308,6 +1310,7 @@ func main() {
 	}
 	rows = append(rows, g.classifyCut())
 	rows = append(rows, g.pdfRows()...)
+	rows = append(rows, g.multiFillRows()...)
 
 	sort.Slice(rows, func(i, j int) bool {
 		if rows[i].pkg != rows[j].pkg {
